@@ -69,12 +69,16 @@ static void send_back(void) {
 /* w = 8,16,32,64; sg = signed; base */
 static void case_int(int w, int sg, int base, uint64_t v) {
     uint64_t mask = w == 64 ? ~0ull : ((1ull << w) - 1);
+    static unsigned long nint;
+    int lead = (int) (nint++ & 1);         /* every other value is the second item of its response (behind a boolean 1) */
     v &= mask;
     fresh();
+    if (lead) SCPI_ResultBool(&ctx, 1);
     if (w == 8) { if (sg) SCPI_ResultInt8(&ctx, (int8_t) v); else SCPI_ResultUInt8Base(&ctx, (uint8_t) v, base); }
     else if (w == 16) { if (sg) SCPI_ResultInt16(&ctx, (int16_t) v); else SCPI_ResultUInt16Base(&ctx, (uint16_t) v, base); }
     else if (w == 32) { if (sg) SCPI_ResultInt32(&ctx, (int32_t) v); else SCPI_ResultUInt32Base(&ctx, (uint32_t) v, (int8_t) base); }
     else { if (sg) SCPI_ResultInt64(&ctx, (int64_t) v); else SCPI_ResultUInt64Base(&ctx, v, (int8_t) base); }
+    if (lead && wlen >= 2 && wbuf[0] == '1' && wbuf[1] == ',') { memmove(wbuf, wbuf + 2, wlen - 2); wlen -= 2; }      /* otherwise the record shows what was sent */
     fprintf(out, "{\"t\":\"int\",\"w\":%d,\"sg\":%d,\"base\":%d,\"v\":", w, sg, base); limbs(v);
     fprintf(out, ",\"out\":"); pb(wbuf, wlen);
     /* 8/16-bit values are read back through the 32-bit readers and narrowed by the caller, as applications do */
